@@ -397,15 +397,26 @@ func randomWorld(r interface{ Intn(int) int }) *world {
 	}
 	// older variant: some accounts changed, removed or added
 	o := stateContent{}
-	for k, a := range t {
+	tkeys := make([]common.Hash, 0, len(t))
+	for k := range t {
+		tkeys = append(tkeys, k)
+	}
+	sort.Slice(tkeys, func(i, j int) bool { return bytes.Compare(tkeys[i][:], tkeys[j][:]) < 0 })
+	for _, k := range tkeys {
+		a := t[k]
 		switch r.Intn(5) {
 		case 0:
 			continue
 		case 1:
 			b := &acct{Balance: a.Balance + 1, Slots: map[common.Hash][]byte{}, Code: a.Code}
-			for s, v := range a.Slots {
+			skeys := make([]common.Hash, 0, len(a.Slots))
+			for s := range a.Slots {
+				skeys = append(skeys, s)
+			}
+			sort.Slice(skeys, func(i, j int) bool { return bytes.Compare(skeys[i][:], skeys[j][:]) < 0 })
+			for _, s := range skeys {
 				if r.Intn(3) > 0 {
-					b.Slots[s] = v
+					b.Slots[s] = a.Slots[s]
 				}
 			}
 			b.Slots[slots[r.Intn(len(slots))]] = slotVal(9)
